@@ -364,8 +364,45 @@ static void ph_monitor(struct Lattice_Term *T)
   if (g_pc.gkind == 0 ? IS_HOPPING(&c, g_pc.a1, g_pc.l1, g_pc.l2, g_pc.ga, g_pc.gb, g_pc.gz1, g_pc.gz1) : IS_HOPPING(&c, g_pc.a1, g_pc.l2, g_pc.l1, g_pc.gb, g_pc.ga, g_pc.gz1, g_pc.gz1)) { m.hits++; REACH("ghost_term"); }
   g_pm = m;
 }
+/* ---- addSzSz / addSS (-DPM_EXCH): the documented sets of the generic modes PM_SZSZ / PM_SS above, read from scalars of the constant ghost struct g_px
+ * (amplitudes -J/4, J/4, J/2 and the sizes of the two sites pinned in `requires`): no uninterpreted function and no read of the site array per call.
+ *   addSzSz: SUM_a J 1/2(n_{ia up} - n_{ia down}) 1/2(n_{ja up} - n_{ja down})  (n n = n on the same site);  addSS (ss): + J/2 (S+_i S-_j + S-_i S+_j) */
+struct PX { label_t l1, l2; double J, mq, q, h; _Bool ss, k1, k2; unsigned short no1, ns1, no2, ns2; int gkind; unsigned short ga; unsigned long exp; } g_px;
+#define OPVALID_X(T, p) (((T)->SiteLabels.d[p] == g_px.l1 && g_px.k1 && (T)->Orbitals.d[p] < g_px.no1 && (T)->Spins.d[p] < g_px.ns1) || \
+                         ((T)->SiteLabels.d[p] == g_px.l2 && g_px.k2 && (T)->Orbitals.d[p] < g_px.no2 && (T)->Spins.d[p] < g_px.ns2))
+static _Bool px_valid(const struct Lattice_Term *t)
+{
+  return (t->N == 2 && OPVALID_X(t, 0) && OPVALID_X(t, 1)) || (t->N == 4 && OPVALID_X(t, 0) && OPVALID_X(t, 1) && OPVALID_X(t, 2) && OPVALID_X(t, 3));
+}
+static _Bool px_sound(const struct Lattice_Term *t)
+{
+  label_t i = g_px.l1, j = g_px.l2; unsigned short a = t->Orbitals.d[0];
+  return IS_NN(t, g_px.mq, i, j, a, a, up, down) || IS_NN(t, g_px.mq, i, j, a, a, down, up) ||
+         (i != j && (IS_NN(t, g_px.q, i, j, a, a, up, up) || IS_NN(t, g_px.q, i, j, a, a, down, down))) ||
+         (i == j && (IS_LEVEL(t, g_px.q, i, a, up) || IS_LEVEL(t, g_px.q, i, a, down))) ||
+         (g_px.ss && (IS_SPSM(t, g_px.h, i, j, a) || IS_SMSP(t, g_px.h, i, j, a)));
+}
+static _Bool px_ghost(const struct Lattice_Term *t)
+{
+  label_t i = g_px.l1, j = g_px.l2; unsigned short a = g_px.ga; int k = g_px.gkind;
+  if (k == 0) return IS_NN(t, g_px.mq, i, j, a, a, up, down);
+  if (k == 1) return IS_NN(t, g_px.mq, i, j, a, a, down, up);
+  if (k == 2) return i != j ? IS_NN(t, g_px.q, i, j, a, a, up, up) : IS_LEVEL(t, g_px.q, i, a, up);
+  if (k == 3) return i != j ? IS_NN(t, g_px.q, i, j, a, a, down, down) : IS_LEVEL(t, g_px.q, i, a, down);
+  if (k == 4) return IS_SPSM(t, g_px.h, i, j, a);
+  return IS_SMSP(t, g_px.h, i, j, a);
+}
+static void px_monitor(struct Lattice_Term *T)
+{
+  struct Lattice_Term c = *T;
+  __CPROVER_assert(px_valid(&c), "C20: every term handed to the storage refers to the two known sites and to orbitals / spins inside their ranges");
+  __CPROVER_assert(px_sound(&c), "C04: every term handed to the storage belongs to the documented sum, with the documented amplitude");
+  struct PMS s = g_pm; s.calls++; if (px_ghost(&c)) { s.hits++; REACH("ghost_term"); } g_pm = s;
+}
 #ifdef PM_KANAMORI
 #define PM_SINK pk_monitor
+#elif defined(PM_EXCH)
+#define PM_SINK px_monitor
 #elif defined(PM_HOPDIAG_MON)
 #define PM_SINK ph_monitor
 #else
@@ -440,11 +477,7 @@ void h_addCoulombS(void) { struct Lattice *L; label_t l; double u, e; LatticePre
 
 /* ---- addCoulombP (Kanamori): monitor pk_monitor (-DPM_KANAMORI), ghost struct g_pk */
 #define PK_PRE __CPROVER_requires(__CPROVER_is_fresh(L, sizeof(*L)) && SiteMap_wf_nosums(PL) && !VERIF_thrown && g_pm.calls == 0 && g_pm.hits == 0)
-#ifdef PK_ONLY          /* decomposition by sum: the ghost member ranges over ONE of the six documented sums (all six harnesses together = the full contract) */
-#define PK_KIND_OK (g_pk.gkind == PK_ONLY)
-#else
-#define PK_KIND_OK (PK_LEVEL <= g_pk.gkind && g_pk.gkind <= PK_PAIRHOP)
-#endif
+#define PK_KIND_OK (PK_LEVEL <= g_pk.gkind && g_pk.gkind <= PK_PAIRHOP)   /* the ghost member ranges over all six sums in ONE harness (91 s, 1.3 GB: no decomposition needed) */
 #define PK_TWO_ORB (g_pk.gkind == PK_SAMESPIN || g_pk.gkind >= PK_UP)        /* sums over a != a' */
 #define PK_TWO_SPIN (g_pk.gkind >= PK_U)                                    /* sums over s > s' */
 //@maythrow LatticePresets_addCoulombP6 LatticePresets_addCoulombP5
@@ -527,47 +560,51 @@ __CPROVER_decreases(Orbitals - i)
 //@harness h_addMagnetization enforce=LatticePresets_addMagnetization props=C04,C20 min_obl=4061 reach=3 objbits=8 defs=-DVERIF_FP_IEEE timeout=120
 void h_addMagnetization(void) { struct Lattice *L; label_t l; double m; LatticePresets_addMagnetization(L, l, m); if (VERIF_thrown) REACH("thrown"); REACH("exit"); }
 
-/* ---- addSzSz */
+/* ---- addSzSz / addSS: monitor px_monitor (-DPM_EXCH), ghost struct g_px */
 #define SIZES_MISMATCH (O1 != O2 || Z1 != Z2)
+#define PX_PRE __CPROVER_requires(__CPROVER_is_fresh(L, sizeof(*L)) && SiteMap_wf_nosums(PL) && !VERIF_thrown && g_pm.calls == 0 && g_pm.hits == 0)
+/* the ghost constants: labels, J, the documented amplitudes -J/4, J/4, J/2, and what the validity check needs to know about the two sites */
+#define PX_PINS __CPROVER_requires(g_px.l1 == Label1 && g_px.l2 == Label2 && D_SAME(g_px.J, ExchJ) && D_SAME(g_px.mq, AMP_MQUARTER(ExchJ)) && D_SAME(g_px.q, AMP_QUARTER(ExchJ)) && D_SAME(g_px.h, AMP_HALF(ExchJ))) \
+   __CPROVER_requires(g_px.k1 == K1 && g_px.k2 == K2 && (K1 ==> (g_px.no1 == O1 && g_px.ns1 == Z1)) && (K2 ==> (g_px.no2 == O2 && g_px.ns2 == Z2)))
 //@function Pomerol::LatticePresets::addSzSz(Pomerol::Lattice*, std::__cxx11::basic_string<char, std::char_traits<char>, std::allocator<char> > const&, std::__cxx11::basic_string<char, std::char_traits<char>, std::allocator<char> > const&, double) as LatticePresets_addSzSz
 //@contract
-ADD_PRE(g_pc.mode)
-__CPROVER_requires((g_pc.mode == PM_SZSZ || g_pc.mode == PM_SS) && g_pc.l1 == Label1 && g_pc.l2 == Label2 && D_SAME(g_pc.a1, ExchJ))
-/* ghost member: orbital ga, kind 0..3 = the four terms of the product (kind 4,5: the S+S-, S-S+ terms of addSS) */
-__CPROVER_requires((K1 && K2) ==> (g_pc.ga < O1 && 0 <= g_pc.gkind && g_pc.gkind <= (g_pc.mode == PM_SS ? 5 : 3)) && g_pc.exp == 1)
+PX_PRE
+PX_PINS
+/* ghost member: orbital ga, kind 0..3 = the four terms of the product (kind 4,5: the S+S-, S-S+ terms of addSS: not added here) */
+__CPROVER_requires(g_px.ga < g_px.no1 && 0 <= g_px.gkind && g_px.gkind <= (g_px.ss ? 5 : 3) && g_px.exp == 1)
 __CPROVER_assigns(VERIF_thrown, g_pm, g_ft)
 /* unknown label, sites of different size, or not 2 spins */
 __CPROVER_ensures(VERIF_thrown == (!K1 || !K2 || SIZES_MISMATCH || Z1 != 2))
 __CPROVER_ensures(VERIF_thrown ==> g_pm.calls == 0)
-__CPROVER_ensures(!VERIF_thrown ==> g_pm.hits == (g_pc.gkind <= 3 ? g_pc.exp : 0UL))
+__CPROVER_ensures(!VERIF_thrown ==> g_pm.hits == (g_px.gkind <= 3 ? g_px.exp : 0UL))
 //@loop 1
 __CPROVER_assigns(i, g_pm, g_ft)
-__CPROVER_loop_invariant(i <= Orbitals && !VERIF_thrown && (g_pc.gkind <= 3 ? GH(i <= g_pc.ga) : g_pm.hits == 0))
+__CPROVER_loop_invariant(i <= Orbitals && !VERIF_thrown && (g_px.gkind <= 3 ? (i <= g_px.ga ? g_pm.hits == 0 : g_pm.hits == g_px.exp) : g_pm.hits == 0))
 __CPROVER_decreases(Orbitals - i)
 //@end
-//@harness h_addSzSz enforce=LatticePresets_addSzSz props=C04,C20 min_obl=4150 reach=3 objbits=8 timeout=900 mem=40 tier=thorough timeout=2400
+//@harness h_addSzSz enforce=LatticePresets_addSzSz props=C04,C20 min_obl=2777 reach=3 objbits=8 defs=-DPM_EXCH timeout=300
 void h_addSzSz(void) { struct Lattice *L; label_t l1, l2; double j; LatticePresets_addSzSz(L, l1, l2, j); if (VERIF_thrown) REACH("thrown"); REACH("exit"); }
 
 /* ---- addSS (calls addSzSz, inlined with its loop contract) */
 //@free addSzSz => LatticePresets_addSzSz
 //@function Pomerol::LatticePresets::addSS(Pomerol::Lattice*, std::__cxx11::basic_string<char, std::char_traits<char>, std::allocator<char> > const&, std::__cxx11::basic_string<char, std::char_traits<char>, std::allocator<char> > const&, double) as LatticePresets_addSS
 //@contract
-ADD_PRE(PM_SS)
-__CPROVER_requires(g_pc.l1 == Label1 && g_pc.l2 == Label2 && D_SAME(g_pc.a1, ExchJ))
-__CPROVER_requires((K1 && K2) ==> (g_pc.ga < O1 && 0 <= g_pc.gkind && g_pc.gkind <= 5) && g_pc.exp == 1)
+PX_PRE
+PX_PINS
+__CPROVER_requires(g_px.ss && g_px.ga < g_px.no1 && 0 <= g_px.gkind && g_px.gkind <= 5 && g_px.exp == 1)
 __CPROVER_assigns(VERIF_thrown, g_pm, g_ft)
 __CPROVER_ensures(VERIF_thrown == (!K1 || !K2 || SIZES_MISMATCH || Z1 != 2))
 __CPROVER_ensures(VERIF_thrown ==> g_pm.calls == 0)
-__CPROVER_ensures(!VERIF_thrown ==> g_pm.hits == g_pc.exp)
+__CPROVER_ensures(!VERIF_thrown ==> g_pm.hits == g_px.exp)
 //@loop 1
 __CPROVER_assigns(i, g_pm, g_ft)
-__CPROVER_loop_invariant(i <= Orbitals && !VERIF_thrown && (g_pc.gkind >= 4 ? GH(i <= g_pc.ga) : g_pm.hits == g_pc.exp))
+__CPROVER_loop_invariant(i <= Orbitals && !VERIF_thrown && (g_px.gkind >= 4 ? (i <= g_px.ga ? g_pm.hits == 0 : g_pm.hits == g_px.exp) : g_pm.hits == g_px.exp))
 __CPROVER_decreases(Orbitals - i)
 //@end
-//@harness h_addSS enforce=LatticePresets_addSS props=C04,C20 min_obl=4250 reach=3 objbits=8 timeout=900 mem=40 tier=thorough timeout=2400
+//@harness h_addSS enforce=LatticePresets_addSS props=C04,C20 min_obl=2877 reach=3 objbits=8 defs=-DPM_EXCH timeout=400
 void h_addSS(void) { struct Lattice *L; label_t l1, l2; double j; LatticePresets_addSS(L, l1, l2, j); if (VERIF_thrown) REACH("thrown"); REACH("exit"); }
 
-/* ---- addHopping(L, i, j, t, a, a', s, s'): the checked single hopping term and its Hermitian conjugate (inlined below) */
+/* ---- addHopping(L, i, j, t, a, a', s, s'): the checked single hopping term and its Hermitian conjugate */
 //@free addHopping => LatticePresets_addHopping8
 //@function Pomerol::LatticePresets::addHopping(Pomerol::Lattice*, std::__cxx11::basic_string<char, std::char_traits<char>, std::allocator<char> > const&, std::__cxx11::basic_string<char, std::char_traits<char>, std::allocator<char> > const&, double, unsigned short, unsigned short, unsigned short, unsigned short) as LatticePresets_addHopping8
 //@contract
@@ -583,29 +620,6 @@ __CPROVER_ensures((g_pc.mode == PM_HOPPING8 && !VERIF_thrown) ==> (g_pm.calls ==
 //@end
 //@harness h_addHopping8 enforce=LatticePresets_addHopping8 props=C04,C20 min_obl=4372 reach=3 objbits=8 timeout=300
 void h_addHopping8(void) { struct Lattice *L; label_t l1, l2; double t; unsigned short a, b, s1, s2; g_pc.mode = PM_HOPPING8; LatticePresets_addHopping8(L, l1, l2, t, a, b, s1, s2); if (VERIF_thrown) REACH("thrown"); REACH("exit"); }
-/* ---- addHopping(L, i, j, t): SUM_{s a} t c^+_{ias} c_{jas} + h.c. */
-//@function Pomerol::LatticePresets::addHopping(Pomerol::Lattice*, std::__cxx11::basic_string<char, std::char_traits<char>, std::allocator<char> > const&, std::__cxx11::basic_string<char, std::char_traits<char>, std::allocator<char> > const&, double) as LatticePresets_addHopping4
-//@contract
-ADD_PRE(PM_HOPPING)
-__CPROVER_requires(g_pc.l1 == Label1 && g_pc.l2 == Label2 && D_SAME(g_pc.a1, t))
-/* ghost member: kind 0: t c^+_{i ga gz1} c_{j ga gz1};  kind 1: its conjugate t c^+_{j ga gz1} c_{i ga gz1} (the same term twice if i == j) */
-__CPROVER_requires((K1 && K2) ==> (g_pc.ga < O1 && g_pc.gz1 < Z1 && (g_pc.gkind == 0 || g_pc.gkind == 1)) && g_pc.exp == (Label1 == Label2 ? 2UL : 1UL))
-__CPROVER_assigns(VERIF_thrown, g_pm, g_ft)
-__CPROVER_ensures(VERIF_thrown == (!K1 || !K2 || SIZES_MISMATCH))
-__CPROVER_ensures(VERIF_thrown ==> g_pm.calls == 0)
-__CPROVER_ensures(!VERIF_thrown ==> g_pm.hits == g_pc.exp)
-//@loop 1
-__CPROVER_assigns(z, g_pm, g_ft)
-__CPROVER_loop_invariant(z <= Spins && !VERIF_thrown && GH(z <= g_pc.gz1))
-__CPROVER_decreases(Spins - z)
-//@loop 2
-__CPROVER_assigns(i, g_pm, g_ft)
-__CPROVER_loop_invariant(i <= Orbitals && !VERIF_thrown && (z == g_pc.gz1 ? GH(i <= g_pc.ga) : g_pm.hits == __CPROVER_loop_entry(g_pm.hits)))
-__CPROVER_decreases(Orbitals - i)
-//@end
-//@harness h_addHopping4 enforce=LatticePresets_addHopping4 props=C04,C20 min_obl=4170 reach=3 objbits=8 timeout=900 mem=40 tier=thorough timeout=2400
-void h_addHopping4(void) { struct Lattice *L; label_t l1, l2; double t; LatticePresets_addHopping4(L, l1, l2, t); if (VERIF_thrown) REACH("thrown"); REACH("exit"); }
-
 /* ---- addHopping(L, i, j, t, a, a', s): "A shortcut to addHopping t c^+_{i a s} c_{j a' s}": a thin caller of the 8-argument overload, which is
  * REPLACED BY ITS CONTRACT (proved by h_addHopping8; its pre-condition pins every argument of the call to the ghost data) */
 #define O2_ SM_orb(SITEPOS(Label2))
@@ -640,7 +654,7 @@ __CPROVER_ensures(VERIF_thrown ==> (g_pm.calls == __CPROVER_old(g_pm.calls) && g
 __CPROVER_ensures(!VERIF_thrown ==> (g_pm.calls == __CPROVER_old(g_pm.calls) + 2 &&
      g_pm.hits == __CPROVER_old(g_pm.hits) + ((Spin1 == g_pc.gz1 && Orbital1 == g_pc.ga && Orbital2 == g_pc.gb) ? ((Label1 == Label2 && Orbital1 == Orbital2) ? 2UL : 1UL) : 0UL)))
 //@end
-//@harness h_addHopping8d enforce=LatticePresets_addHopping8d props=C04,C20 min_obl=589 reach=3 objbits=8 defs=-DPM_HOPDIAG_MON timeout=300
+//@harness h_addHopping8d enforce=LatticePresets_addHopping8d props=C04,C20 min_obl=589 reach=3 objbits=8 defs=-DPM_HOPDIAG_MON timeout=120
 void h_addHopping8d(void) { struct Lattice *L; label_t l1, l2; double t; unsigned short a, b, s1, s2; LatticePresets_addHopping8d(L, l1, l2, t, a, b, s1, s2); if (VERIF_thrown) REACH("thrown"); REACH("exit"); }
 //@free addHopping => LatticePresets_addHopping8d
 //@function Pomerol::LatticePresets::addHopping(Pomerol::Lattice*, std::__cxx11::basic_string<char, std::char_traits<char>, std::allocator<char> > const&, std::__cxx11::basic_string<char, std::char_traits<char>, std::allocator<char> > const&, double, unsigned short, unsigned short) as LatticePresets_addHopping6
@@ -661,12 +675,11 @@ __CPROVER_assigns(z, VERIF_thrown, g_pm, g_ft)
 __CPROVER_loop_invariant(0 <= z && z <= Spins && !VERIF_thrown && g_pm.calls == 2UL * (unsigned long)z && GH(z <= g_pc.gz1))
 __CPROVER_decreases(Spins - z)
 //@end
-//@harness h_addHopping6 enforce=LatticePresets_addHopping6 replace=LatticePresets_addHopping8d props=C04,C20 min_obl=386 reach=2 objbits=8 timeout=300
+//@harness h_addHopping6 enforce=LatticePresets_addHopping6 replace=LatticePresets_addHopping8d props=C04,C20 min_obl=387 reach=2 objbits=8 timeout=120
 void h_addHopping6(void) { struct Lattice *L; label_t l1, l2; double t; unsigned short a, b; LatticePresets_addHopping6(L, l1, l2, t, a, b); if (VERIF_thrown) REACH("thrown"); REACH("exit"); }
-/* ---- addHopping(L, i, j, t) once more, as a caller of the relative contract of the 8-argument overload (quick-tier counterpart of h_addHopping4, which inlines
- * the callee): same contract, mode PM_HOPDIAG2 */
-//@maythrow LatticePresets_addHopping4r
-//@function Pomerol::LatticePresets::addHopping(Pomerol::Lattice*, std::__cxx11::basic_string<char, std::char_traits<char>, std::allocator<char> > const&, std::__cxx11::basic_string<char, std::char_traits<char>, std::allocator<char> > const&, double) as LatticePresets_addHopping4r
+/* ---- addHopping(L, i, j, t): SUM_{s a} t c^+_{ias} c_{jas} + h.c., as a caller of the relative contract of the 8-argument overload, mode PM_HOPDIAG2
+ * (round 1 inlined the callee under the generic monitor: 40 GB, undecided; same contract here) */
+//@function Pomerol::LatticePresets::addHopping(Pomerol::Lattice*, std::__cxx11::basic_string<char, std::char_traits<char>, std::allocator<char> > const&, std::__cxx11::basic_string<char, std::char_traits<char>, std::allocator<char> > const&, double) as LatticePresets_addHopping4
 //@contract
 ADD_PRE(PM_HOPDIAG2)
 __CPROVER_requires(g_pc.l1 == Label1 && g_pc.l2 == Label2 && D_SAME(g_pc.a1, t) && g_pc.ga == g_pc.gb && (g_pc.gkind == 0 || g_pc.gkind == 1))
@@ -687,8 +700,8 @@ __CPROVER_assigns(i, VERIF_thrown, g_pm, g_ft)
 __CPROVER_loop_invariant(i <= Orbitals && !VERIF_thrown && (z == g_pc.gz1 ? GH(i <= g_pc.ga) : g_pm.hits == __CPROVER_loop_entry(g_pm.hits)))
 __CPROVER_decreases(Orbitals - i)
 //@end
-//@harness h_addHopping4r enforce=LatticePresets_addHopping4r replace=LatticePresets_addHopping8d props=C04,C20 min_obl=100 reach=2 objbits=8 timeout=300
-void h_addHopping4r(void) { struct Lattice *L; label_t l1, l2; double t; LatticePresets_addHopping4r(L, l1, l2, t); if (VERIF_thrown) REACH("thrown"); REACH("exit"); }
+//@harness h_addHopping4 enforce=LatticePresets_addHopping4 replace=LatticePresets_addHopping8d props=C04,C20 min_obl=459 reach=2 objbits=8 timeout=120
+void h_addHopping4(void) { struct Lattice *L; label_t l1, l2; double t; LatticePresets_addHopping4(L, l1, l2, t); if (VERIF_thrown) REACH("thrown"); REACH("exit"); }
 //@free addHopping => LatticePresets_addHopping8
 
 /* MUTATION RECORD (tools/try_mutant.py, src/pomerol/LatticePresets.cpp; all killed):
@@ -706,7 +719,8 @@ void h_addHopping4r(void) { struct Lattice *L; label_t l1, l2; double t; Lattice
  *   "mH 1/2 (n_up - n_down)" while the code stores +-mH): harness h_addMagnetization, obligations
  *   pm_monitor.assertion.2 ("C04: every term handed to the storage belongs to the documented sum, with the documented amplitude")
  *   and its consequence LatticePresets_addMagnetization.loop_invariant_step.2 (the ghost term (mH/2) n is never handed over).
- * UNDECIDED at the 8 GB limit of tools/run_cbmc.py (SAT solver out of memory, no failure reported): h_addSzSz, h_addSS, h_addHopping4.
+ * Round 1 left h_addSzSz, h_addSS, h_addHopping4 undecided (generic monitor, 8 GB / 40 GB); round 2 closes them in the quick tier with the same contracts:
+ *   addSzSz / addSS under the scalar-only monitor px_monitor (-DPM_EXCH), addHopping/4 as a caller of the relative contract of addHopping8d.
  * Round 2 (tools/try_mutant.py-style runs in private output directories; all killed):
  *  K1 addCoulombP same-spin loop `j<Orbitals` -> `j<Spins`     pk_monitor.assertion.1 (C20 validity, Spins > Orbitals), LatticePresets_addCoulombP6.loop_invariant_step.1/.18/.36 (completeness, Orbitals >= 3)
  *  K2 addCoulombP (U_p-J)/2. -> (U_p-J)                        pk_monitor.assertion.2, loop_invariant_step.2/.10/.20/.28
@@ -720,6 +734,16 @@ void h_addHopping4r(void) { struct Lattice *L; label_t l1, l2; double t; Lattice
  *  H4 addHopping/8 conjugate keeps the orbital order           LatticePresets_addHopping8d.postcondition.3, ph_monitor.assertion.2/.3
  *  H5 addHopping/8 `Spin1 >=` -> `Spin1 >`                     LatticePresets_addHopping8d.postcondition.1, ph_monitor.assertion.2
  *  H6 addHopping/6 passes (Orbital1, Orbital1)                 LatticePresets_addHopping6.postcondition.1, LatticePresets_addHopping8d.precondition.2, loop_invariant_step.2
+ *  X1 addSzSz first term +J/4 instead of -J/4                    px_monitor.assertion.2, LatticePresets_addSzSz.loop_invariant_step.2
+ *  X2 addSzSz `Label1 != Label2` -> `==`                          px_monitor.assertion.2, LatticePresets_addSzSz.loop_invariant_step.2
+ *  X3 addSzSz `Spins!=2` -> `Spins>2`                             LatticePresets_addSzSz.postcondition.1, px_monitor.assertion.1
+ *  X4 addSS S+S- amplitude J/4                                    px_monitor.assertion.2, LatticePresets_addSS.loop_invariant_step.2
+ *  X5 addSS S+S-/S-S+ loop starts at 1                            LatticePresets_addSS.postcondition.3, loop_invariant_base.2
+ *  X6 addHopping/4 orbital loop bounded by Spins                  LatticePresets_addHopping4.postcondition.1/.2, loop_invariant_step.6
+ *  X7 addHopping/4 spin sizes compared with Label1 (D10 shape)    LatticePresets_addHopping4.postcondition.1/.2
  * REMARK (not a violation of the documented operator): addCoulombP stores the (U'-J)/2 terms also when U' == J (amplitude zero): L->Terms->addTerm
  *   bypasses the zero filter of Lattice::addTerm and the preset has no `if (std::abs(...))` guard for this sum, unlike for U, U', J and Level.
- * NOT under contract: IndexHamiltonian::prepare is in specs/indexham.c. */
+ * Monitor variants: the generic pm_monitor (modes PM_COULOMBS, PM_LEVEL, PM_MAGNET, PM_HOPPING8; its cases PM_SZSZ, PM_SS, PM_HOPPING are no longer used by a
+ *   harness) and, selected by a define of the harness, pk_monitor (-DPM_KANAMORI), px_monitor (-DPM_EXCH), ph_monitor (-DPM_HOPDIAG_MON): same three checks
+ *   (validity, membership in the documented set, ghost count), written over scalars pinned in `requires`.
+ * IndexHamiltonian::prepare is in specs/indexham.c. */
